@@ -54,6 +54,40 @@ def go_cfg(c, dotu=True):
                        "FixHandoff": c["FixHandoff"], "Dotu": dotu})
 
 
+def library_panic(stdout):
+    """If the engine process died of a panic raised in the library (first non-runtime frame of the
+    panicking goroutine is a go9p function other than the verif accessors), return that function."""
+    m = re.search(r"^panic: .*?$(.*?)(?:\n\s*\n|\Z)", stdout, re.S | re.M)
+    if not m:
+        return None
+    for fm in re.finditer(r"^([\w./*()\[\]·-]+)\(.*\)\s*$", m.group(1), re.M):
+        fn = fm.group(1)
+        if fn.startswith("runtime.") or fn.startswith("panic") or fn.startswith("internal/") or fn.startswith("testing"):
+            continue
+        lm = re.match(r"github\.com/rminnich/go9p\.(.*)", fn)
+        if lm and not lm.group(1).startswith("Verif"):
+            return lm.group(1)
+        return None
+    return None
+
+
+def engine(ctx, test, env=None, timeout=900, name=None, what="healthy connection"):
+    """Run a harness engine; a process crash caused by a panic inside the library is a violation
+    (the calls in flight never return), any other death is inconclusive."""
+    rep = ctx.go_engine("clnth", test, env=env or {}, timeout=timeout, name=name or test, allow_crash=True)
+    if rep.get("_exit") != 0 or "cases" not in rep:
+        out = rep.get("_stdout", "")
+        fn = library_panic(out)
+        if fn:
+            pm = re.search(r"panic: ([^\n]*)", out)
+            ctx.violation("panic:%s" % fn, "engine %s (%s): the client panics in %s: %s" % (
+                name or test, what, fn, pm.group(1)[:160] if pm else ""), {"engine": test, "env": env or {}})
+        else:
+            ctx.log("engine output tail:\n" + "\n".join(out.splitlines()[-40:]))
+            ctx.inconclusive.append("engine %s exited %s without a complete report" % (name or test, rep.get("_exit")))
+    return rep
+
+
 def exhaustive(ctx, name, c, invs, stats, timeout=800):
     cfg = ctx.write_cfg(name + ".cfg", c, invariants=invs, deadlock=True)
     r = ctx.tlc_must_pass("Clnt9P", cfg, timeout=timeout, name=name)
@@ -65,7 +99,8 @@ def exhaustive(ctx, name, c, invs, stats, timeout=800):
 def validate_trace(ctx, name, c, trace_path, stats):
     """TLC validates an implementation trace against Clnt9PTrace. Returns (consumed, [reject lines])."""
     if not os.path.exists(trace_path) or os.path.getsize(trace_path) == 0:
-        ctx.inconclusive.append("%s: no trace was recorded" % name)
+        if not ctx.violations:
+            ctx.inconclusive.append("%s: no trace was recorded" % name)
         return 0, []
     cfg = ctx.write_cfg(name + "-trace.cfg", c, spec="TraceSpec", deadlock=False,
                         invariants=["OwnReply", "DistinctTags", "Recycling", "FIFOPerTag", "NoFalseSuccess",
@@ -92,7 +127,7 @@ def replay(ctx, name, c, behaviours_path, stats, dotu=True, trace=True, timeout=
     env = {"VERIF_BEHAVIOURS": behaviours_path, "VERIF_CFG": go_cfg(c, dotu)}
     if trace:
         env["VERIF_TRACE_OUT"] = tpath
-    rep = ctx.go_engine("clnth", "TestReplay", env=env, timeout=timeout, name=name + ":replay")
+    rep = engine(ctx, "TestReplay", env=env, timeout=timeout, name=name + ":replay", what="replay of Clnt9P behaviours")
     st = rep.get("stats", {})
     if st.get("drift_cases"):
         ctx.inconclusive.append("%s: %d behaviour(s) could not be replayed step by step (drift), e.g. %s" % (
@@ -147,8 +182,8 @@ def sim_bind(ctx, name, c, stats, num, depth=300, dotu=True):
 
 def random_bind(ctx, name, c, stats, n, dotu=True):
     tpath = ctx.path(name + "-trace.ndjson")
-    rep = ctx.go_engine("clnth", "TestRandom", env={"VERIF_CFG": go_cfg(c, dotu), "VERIF_N": n, "VERIF_TRACE_OUT": tpath},
-                        timeout=900, name=name + ":random")
+    rep = engine(ctx, "TestRandom", env={"VERIF_CFG": go_cfg(c, dotu), "VERIF_N": n, "VERIF_TRACE_OUT": tpath},
+                 timeout=900, name=name + ":random", what="random controlled schedules")
     stats["random_schedules"] += rep.get("cases", 0)
     stats["steps"] += rep.get("stats", {}).get("steps", 0)
     for s in rep.get("samples", [])[:1]:
@@ -163,8 +198,11 @@ def new_stats():
             "tour_edges_covered": 0, "tour_edges_total": 0, "random_schedules": 0, "free_cases": 0, "samples": []}
 
 
-def free_engine(ctx, test, stats, env=None, timeout=900, name=None, **kw):
-    rep = ctx.go_engine("clnth", test, env=env or {}, timeout=timeout, name=name or test, **kw)
+def free_engine(ctx, test, stats, env=None, timeout=900, name=None, allow_crash=False):
+    if allow_crash:
+        rep = ctx.go_engine("clnth", test, env=env or {}, timeout=timeout, name=name or test, allow_crash=True)
+    else:
+        rep = engine(ctx, test, env=env, timeout=timeout, name=name, what="free-running sessions")
     stats["free_cases"] += rep.get("cases", 0) or 0
     for s in (rep.get("samples") or [])[:1]:
         if len(stats["samples"]) < 8:
